@@ -801,19 +801,35 @@ impl Parser {
         let mut plus = false;
 
         if let Some(Lexem::ArithmeticOperator(ref s)) = lexem {
-            if s == "-" {
-                minus = true;
-                lexem = self.next_lexem();
-            } else if s == "+" {
-                // unary plus: nothing to do for a column, a number keeps it (`+2` is a date offset too)
-                plus = true;
-                lexem = self.next_lexem();
-            } else {
-                self.drop_lexem();
+            // a sign may be written as a word as well (`minus 5`, like `0 minus 5`)
+            match ArithmeticOp::from(s.to_string()) {
+                Some(ArithmeticOp::Subtract) => {
+                    minus = true;
+                    lexem = self.next_lexem();
+                }
+                Some(ArithmeticOp::Add) => {
+                    // unary plus: nothing to do for a column, a literal keeps it (`+2` is a date
+                    // offset too, `+ab` is a name)
+                    plus = true;
+                    lexem = self.next_lexem();
+                }
+                _ => self.drop_lexem(),
             }
         }
 
         match lexem {
+            // a sign in front of a bracket: the bracketed expression, negated as a whole
+            Some(Lexem::Open) | Some(Lexem::CurlyOpen) if minus || plus => {
+                self.drop_lexem();
+                match self.parse_paren()? {
+                    Some(inner) if minus => Ok(Some(Expr::arithmetic_op(
+                        Expr::value(String::from("0")),
+                        ArithmeticOp::Subtract,
+                        inner,
+                    ))),
+                    other => Ok(other),
+                }
+            }
             // a quoted literal is always text, even if it spells a column or function name
             Some(Lexem::String(ref s)) => {
                 let mut expr = Expr::value(s.to_string());
@@ -839,7 +855,7 @@ impl Parser {
                     }
                 }
 
-                let text = match plus && !s.is_empty() && s.bytes().all(|b| b.is_ascii_digit()) {
+                let text = match plus && !s.is_empty() {
                     true => format!("+{}", s),
                     false => s.to_string(),
                 };
